@@ -27,3 +27,7 @@ func TestC09D(t *testing.T) {
 }
 func TestC15(t *testing.T) { RunC15(t) }
 func TestC17(t *testing.T) { RunC17(t) }
+func TestC14A(t *testing.T)     { RunC14(t) }
+func TestC14Hooks(t *testing.T) { RunC14Hooks(t) }
+func TestC07K(t *testing.T) { RunK(t, CfgC07()) }
+func TestC07A(t *testing.T) { RunC07A(t) }
